@@ -809,7 +809,8 @@ GRAMMAR = {
     'Util': [dict(id='u', sources='tcp://a', outputs='tcp://*', xforms='flipx, resize 10x20, maxsize 30+40lin;main, box 0+0x.5x.5#f00', log='image', sleep=0.5),
              dict(id='u', sources='tcp://a', outputs='tcp://*', xforms=['rotcw;a;b', 'fmtgray'], maxfps=10)],
     'VideoIn': [dict(id='v', sources='webcam://0!bgr, file://V.mp4!sync!loop=3;other, rtsp://u:p!w@h:8554/S!maxsize=640x480;yet', outputs='tcp://*'),
-                dict(id='v', sources=['file://a.mp4!no-loop;t1', 'file://b.mp4;t2'], outputs='tcp://*', maxfps=5)],
+                dict(id='v', sources=['file://a.mp4!no-loop;t1', 'file://b.mp4;t2'], outputs='tcp://*', maxfps=5),
+                dict(id='v', sources='file://one.mp4!no-sync!loop=0;cam1, file://two.mp4!no-bgr;cam2', outputs='tcp://*')],
     'VideoOut': [dict(id='v', sources='tcp://a', outputs='file://out.mp4!fps=10!segtime=1;main, rtsp://h:8554/x;other'), dict(id='v', sources='tcp://a', outputs=['file://o.mp4'], bgr=False)],
     'ImageIn': [dict(id='i', sources='file:///tmp/imgs!loop!pattern=*.jpg;main, file:///tmp/b;other', outputs='tcp://*'), dict(id='i', sources=['file:///tmp/a!maxfps=2'], outputs='tcp://*')],
     'ImageOut': [dict(id='i', sources='tcp://a', outputs='file:///tmp/out_%d.png!quality=90;main, file:///tmp/o2_%d.jpg;other'), dict(id='i', sources='tcp://a', outputs=['file:///tmp/x_%d.jpg'])],
@@ -856,6 +857,18 @@ def native_bounded(classes=None):
                     bad.append(f'{name}: the list-of-strings form differs from the comma-text form for {c!r}')
             except Exception as e:
                 bad.append(f'{name}: list-of-strings form rejected: {type(e).__name__}: {e}')
+            # the structured RECORD form: the normalised configuration written out as plain dicts / lists (what JSON, an env var or a dict copy gives) normalises to the same
+            def plain(v):
+                if isinstance(v, dict):
+                    return {k: plain(x) for k, x in v.items()}
+                if isinstance(v, (list, tuple)):
+                    return [plain(x) for x in v]
+                return v
+            try:
+                if name in ('VideoIn', 'ImageIn', 'VideoOut', 'ImageOut') and cls.normalize_config(plain(n1)) != n1:
+                    bad.append(f'{name}: the plain-dict (record) form of the normalised configuration normalises to something else for {c!r}')
+            except Exception as e:
+                bad.append(f'{name}: plain-dict form rejected: {type(e).__name__}: {e}')
     return {'confirmed': bool(bad), 'inputs': f'{n} grammar configurations over {len(GRAMMAR) if not classes else len(classes)} classes', 'observed': bad[:4] or 'idempotent and text == structured natively',
             'cases': n, 'skipped': skipped[:6]}
 
